@@ -535,6 +535,15 @@ func (c *ChannelWriter) WaitObjReadyForAPIEvent(ctx context.Context, apiEvent *a
 	if waitPartition {
 		partition = apiEvent.PartitionInfo.PartitionName
 	}
+	if waitDatabase && !waitCollection && !waitPartition && apiEvent.CollectionInfo != nil && db != "" && c.downstream == "milvus" {
+		// collection create/drop: only the database is waited for, but it is the database this collection is
+		// mapped to (its own mapping entry, or else the whole-database entry) that has to be probed
+		state := c.WaitDatabaseReady(ctx, db, ts, apiEvent.CollectionInfo.Schema.GetName())
+		if state == InfoStateUnknown {
+			return false, errors.Newf("database[%s] is not ready", db)
+		}
+		return state == InfoStateDropped, nil
+	}
 
 	return c.WaitObjReady(ctx, db, collection, partition, ts)
 }
